@@ -346,6 +346,9 @@ func execAttack(w *world.World, s Step) bool {
 			w.ReceiveAttack(p, [][]byte{append(append([]byte{}, w.Text(7777)...), []byte(" \t  \t\t\t\t \t \t \t    \t\t  \t   \t\t  \t\t")...)}, "plaintext-tagged")
 		}
 		return true
+	case "ForgeDisclosed":
+		forgeWithDisclosed(w, rand.New(rand.NewSource(int64(w.Seed)+int64(len(w.Wire)))))
+		return true
 	case "TamperOne":
 		// the message at the head of p's queue is replaced by one tampered form (then delivered normally)
 		if len(p.Queue) == 0 {
